@@ -33,6 +33,14 @@ class WorkerResult:
     def crash(self, e, prefix=''):
         """An ExecCrashed -> violation keyed by the sanitizer report (or inconclusive when there is none)."""
         key = core.san_summary(e.stderr)
+        if isinstance(e, kexec.ExecTimeout):
+            self.error = 'watchdog: %s' % e
+            return
+        if isinstance(e, kexec.ExecSpin):
+            key = 'spin:' + (e.last.split(' ')[0] if e.last else 'command')
+            self.viol(prefix + key, '%s\n%s' % (e, e.stderr[-3000:]), e.last)
+            self.count('spinning_commands')
+            return
         if key is None and e.rc is not None and e.rc < 0:
             key = 'signal:%d' % (-e.rc)
         if key is None:
@@ -57,8 +65,14 @@ def _wrap(args):
 def run(ctx, fn, jobs, workers=None):
     """fn(job, result) runs in a forked worker. Merges all results into ctx. Returns list of WorkerResult."""
     workers = workers or min(core.NCPU, max(1, len(jobs)))
-    with mp.get_context('fork').Pool(workers) as pool:
-        res = pool.map(_wrap, [(fn, j) for j in jobs], chunksize=1)
+    # (an executor rather than multiprocessing.Pool: when a worker is killed from outside - out of memory, say - this raises instead of waiting forever)
+    from concurrent.futures import ProcessPoolExecutor
+    from concurrent.futures.process import BrokenProcessPool
+    try:
+        with ProcessPoolExecutor(max_workers=workers, mp_context=mp.get_context('fork')) as pool:
+            res = list(pool.map(_wrap, [(fn, j) for j in jobs], chunksize=1))
+    except BrokenProcessPool as e:
+        raise core.Inconclusive('a worker process of the check died (killed from outside?): %s' % e)
     errs = []
     for r in res:
         ctx.evaluations += r.evals
